@@ -61,6 +61,43 @@ struct Stat {
     asserted: u64,
 }
 
+/// C02's clause for dashed strokes: the drawn shape is the set of dashes (the arc-length model's,
+/// not the library's own dasher), so every pixel more than 0.75 px outside every dash keeps its
+/// value - under any blend mode, over a non-empty destination. `scene` = [stroke(path, style, src, opts)]
+/// on a 40x40 white surface. Ok(None): the model leaves the case undecided.
+pub fn dashes_leave_the_rest_alone(scene: &Scene) -> Result<Option<u64>, Violation> {
+    let case = format!("dashed | {}", scene);
+    let (path, st) = match scene.ops.first() {
+        Some(Op::Stroke(p, st, _, _)) => (p, st),
+        _ => return Err(Violation::new("harness/no-stroke", case, String::new())),
+    };
+    let got = super::common::render(scene).map_err(|p| Violation::new("stroke/panic", case.clone(), p))?;
+    let before = scene.dst.pixels(scene.w, scene.h);
+    // changed pixels as "painted", unchanged ones as "untouched"
+    let marks: Vec<u32> = got.iter().zip(before.iter()).map(|(g, b)| if g != b { 0xffffffff } else { 0 }).collect();
+    let input = polylines_of(&path.build().ops);
+    let arr: Vec<f64> = st.dash.iter().map(|d| *d as f64).collect();
+    let model = match dash(&input, &arr, st.offset as f64, 2e-3) {
+        None => {
+            if marks.iter().any(|p| *p != 0) {
+                return Err(Violation::new("dashed/outside-changed/non-positive-total-painted", case, "a dash array whose total is not positive changed pixels".to_string()));
+            }
+            return Ok(Some(hash64(&got)));
+        }
+        Some(m) => m,
+    };
+    if model.ambiguous {
+        return Ok(None);
+    }
+    let sp = StrokeParams { width: st.width as f64, join: [Join::Miter, Join::Round, Join::Bevel][st.join as usize], cap: [Cap::Butt, Cap::Round, Cap::Square][st.cap as usize], miter_limit: st.miter as f64 };
+    match check_region(&case, &marks, scene.w, scene.h, &model.pieces, &sp, &IDENT, 0.75, "dashed-stroke") {
+        Ok(_) => Ok(Some(hash64(&got))),
+        // only the outside clause is this property's
+        Err(v) if v.sig.contains("exterior") => Err(v),
+        Err(_) => Ok(None),
+    }
+}
+
 fn eval(path: &PathSpec, st: &StyleSpec) -> Result<Stat, Violation> {
     let scene = scene_of(path, st);
     let case = scene.to_string();
